@@ -384,6 +384,19 @@ def W8_info(rep, flow: Flow, fq="mub_circuits.get_mub_info"):
                 return (k[1][3][2], line0, inner)
             return None
         where = f"{f.module.rel} {f.qualname}"
+
+        def from_header_line(v):
+            def rec(k):
+                if isinstance(k, tuple) and k:
+                    if k[0] == "field" and len(k) > 3 and k[2] == ("const", "str", "\n") and k[3] == ("const", "int", 0):
+                        return True
+                    return any(rec(x) for x in k[1:])
+                return False
+            return rec(vkey(v))
+        for key in ("max two-qubit count", "max two-qubit depth", "average two-qubit count"):
+            v = stores.get(key)
+            if v is not None and not from_header_line(v):
+                raise AnalysisError(f"{where}: '{key}' = {fmt(vkey(v))[:120]} is computed, not read from the file header: whether it equals the actual value of the circuits is a value-level question W8 cannot decide")
         for key, pos in (("max two-qubit count", 1), ("max two-qubit depth", 2)):
             v = stores.get(key)
             h = hdr(v) if v is not None else None
